@@ -426,7 +426,9 @@ def _auer_step(m, nonemp):
         npre = len(t.pre)
         t.finite = {"N": A.N, "replay": lambda mdl: ["exec(open('replays/known/C03_auer_stale_positional_widths.py').read())"]}
         for nm, pc, g in pending:
-            t.prove(nm, g, assumptions=pc[npre:])
+            # (any beta mode: the pareto_updating call-pre is the known finding; z3 leaves the quantified query open and the
+            #  finite candidate + native witness decide it, so no long solver budget is spent on it)
+            t.prove(nm, g, assumptions=pc[npre:], **({} if nonemp else {"timeout_ms": 5000, "retry": False}))
         t.finite = None
         t.implicit()
     return _t
